@@ -130,6 +130,10 @@ def run(ctx):
         if name == "draw":
             # the accumulated batch of points (its density rows are joined by a sibling statement of the same shape)
             cc = [x_ for x_ in find_stmt("$$S = concatenate([$$S, $$x])", f.node) if "log_q" not in src(x_[1]["S"]) and "log_q" not in src(x_[1]["x"])]
+            if not cc:
+                # the same accumulation as a list of batches joined once after the loop: B.append(x) ... concatenate(B)
+                joined_ = {src(c_.args[0]) for c_ in walk_no_nested(f.node) if isinstance(c_, ast.Call) and (call_name(c_) or "").split(".")[-1] == "concatenate" and c_.args and isinstance(c_.args[0], ast.Name)}
+                cc = [x_ for x_ in find_stmt("$$S.append($$x)", f.node) if src(x_[1]["S"]) in joined_ and "log_q" not in src(x_[1]["S"]) and "log_q" not in src(x_[1]["x"])]
             samp = src(cc[0][1]["x"]) if len(cc) == 1 else "x"
             acc_name = src(cc[0][1]["S"]) if len(cc) == 1 else "samples"
         else:
@@ -145,6 +149,8 @@ def run(ctx):
             # results: what is concatenated / returned is bound after the last mask
             if name == "draw":
                 cat = fa.find(lambda s: (lambda b_: b_ is not None and src(b_["x"]) == samp)(match_stmt("$$S = concatenate([$$S, $$x])", s)))
+                if not cat:
+                    cat = fa.find(lambda s: (lambda b_: b_ is not None and src(b_["x"]) == samp and src(b_["S"]) == acc_name)(match_stmt("$$S.append($$x)", s)))
                 ctx.ob("R-ORDER", "C09.4", f, "only doubly masked points are appended to the returned batch", len(cat) == 1 and fa.dominates(prior[0][0], cat[0]) and not _rebinds(fa, samp, prior[0][0], cat[0]), "")
             else:
                 rets = fa.find(lambda s: isinstance(s, ast.Return))
